@@ -17,6 +17,27 @@ import core
 from core import hx, nats
 
 FAULT = {"kind": None, "skip": 0}
+HANG_SECONDS = 5.0
+
+
+class Hang(BaseException):
+    """raised by the watchdog inside a call that does not return (BaseException: bigtree's
+    `except Exception` roll-back handlers must not swallow it)"""
+
+
+def _on_alarm(_sig, _frm):
+    raise Hang()
+
+
+def _watchdog(on: bool):
+    import signal, threading
+    if threading.current_thread() is not threading.main_thread():
+        return
+    if on:
+        signal.signal(signal.SIGALRM, _on_alarm)
+        signal.setitimer(signal.ITIMER_REAL, HANG_SECONDS)
+    else:
+        signal.setitimer(signal.ITIMER_REAL, 0)
 
 
 def _fire(kind):
@@ -134,6 +155,7 @@ def apply_op(nodes, op) -> str:
     FAULT["kind"] = None
     FAULT["skip"] = 0
     try:
+        _watchdog(True)
         if k == "P":
             FAULT["kind"] = None if op[3] == "none" else op[3]
             nodes[op[1]].parent = _parent_arg(nodes, op[2])
@@ -172,7 +194,10 @@ def apply_op(nodes, op) -> str:
         return "ok"
     except Exception:
         return "rej"
+    except Hang:
+        return "hang"
     finally:
+        _watchdog(False)
         FAULT["kind"] = None
         FAULT["skip"] = 0
 
@@ -218,6 +243,9 @@ def run_trace(d):
     tr = []
     for op in d["ops"]:
         o = apply_op(nodes, op)
+        if o == "hang":
+            tr.append(("hang", []))
+            break
         tr.append((o, snap(nodes)))
         if not healthy(nodes):
             tr.append(("corrupt", []))
@@ -516,9 +544,9 @@ def random_history(rng: random.Random, cls, n, names, sep, nops, fault_rate=0.25
             op = ["Z", rng.choice(V), rng.choice(seps)]
         else:
             op = ["P", rng.choice(V), rng.choice([None] + V), fault()]
-        apply_op(nodes, op)
+        o = apply_op(nodes, op)
         ops.append(op)
-        if not healthy(nodes):
+        if o == "hang" or not healthy(nodes):
             break
     return ops
 
@@ -686,9 +714,13 @@ def battery(nodes, cls):
 def worker_eval(d):
     """executed inside a worker process: run the history, return the trace text and the reader battery"""
     nodes, tr = run_trace(d)
-    if tr and tr[-1][0] == "corrupt":
-        return {"trace": show_trace(tr), "battery": "corrupt"}
-    return {"trace": show_trace(tr), "battery": json.dumps(battery(nodes, d["cls"]), sort_keys=True, default=str)}
+    if tr and tr[-1][0] in ("corrupt", "hang"):
+        return {"trace": show_trace(tr), "battery": json.dumps({"corrupt": True})}
+    try:
+        bat = json.dumps(battery(nodes, d["cls"]), sort_keys=True, default=str)
+    except Exception as e:  # noqa: BLE001  (a reader failing is itself an observable result)
+        bat = json.dumps({"reader-raised": type(e).__name__})
+    return {"trace": show_trace(tr), "battery": bat}
 
 
 def accepted_history(rng: random.Random, cls, n, names, sep, nops):
